@@ -586,6 +586,15 @@ pub fn diff_fingerprint(p1: &[u8], p2: &[u8]) -> String {
                 let (side, cj, other) = if is_comment(i as isize - 1) { ("after", i - 1, coarse(i as isize)) } else { ("before", i, coarse(i as isize - 1)) };
                 let other = match other.as_str() { "COMMENT" | "START" | "END" => other, _ => "CODE".to_string() };
                 let mut fp = format!("next-to-comment:{}-{}-{}-comment:{}:other-side-{}", change, side, comment_kind(cj), line_position(cj), other);
+                if change == "line-break-added" && side == "after" && other != "END" {
+                    // what the comment follows: `condition:` / `strings:` / `meta:`, `{`, another comment, ...
+                    let prev = if cj == 0 { "START".to_string() } else {
+                        let t = String::from_utf8_lossy(&p1[a[cj - 1].1.clone()]).to_string();
+                        if a[cj - 1].0 == SyntaxKind::COMMENT { "comment".into() }
+                        else if t == ":" && cj >= 2 { format!("{}:", String::from_utf8_lossy(&p1[a[cj - 2].1.clone()]).chars().filter(|c| c.is_ascii_lowercase()).take(12).collect::<String>()) }
+                        else if t == "{" || t == "}" || t == "(" || t == "=" { t } else { coarse(cj as isize - 1).to_lowercase() } };
+                    fp.push_str(&format!(":follows-{}", prev));
+                }
                 if change.starts_with("spaces-") {
                     // alignment of comments: are tabs involved, and is there another comment earlier on the comment's line
                     let tabs = g1.contains(&b'\t') || g2.contains(&b'\t');
@@ -605,7 +614,13 @@ pub fn diff_fingerprint(p1: &[u8], p2: &[u8]) -> String {
                 let k = l1.iter().zip(l2.iter()).position(|(x, y)| x != y).unwrap_or(0);
                 let blank = |l: &[u8]| l.iter().all(|c| *c == b' ' || *c == b'\t' || *c == b'\r');
                 return if k < l1.len() && k < l2.len() && blank(l1[k]) && blank(l2[k]) { "comment-text:blank-line-inside-comment-changes".into() }
-                       else { format!("comment-text:continuation-lines-reindented:{}", line_position(i)) };
+                       else {
+                           let mut earlier = false; let mut non_ascii = false; let mut j = i;
+                           while j > 0 && nl(&gap_of(p1, &a, j)) == 0 { j -= 1; if is_comment(j as isize) { earlier = true; } if !p1[a[j].1.clone()].is_ascii() { non_ascii = true; } }
+                           format!("comment-text:continuation-lines-reindented:{}:{}:{}", line_position(i),
+                               if earlier { "another-comment-earlier-on-the-line" } else { "no-other-comment-earlier-on-the-line" },
+                               if non_ascii { "non-ascii-text-earlier-on-the-line" } else { "ascii-only-earlier-on-the-line" })
+                       };
             }
             return format!("token-text-changes[{}]", coarse(i as isize));
         }
@@ -621,7 +636,7 @@ pub fn diff_fingerprint(p1: &[u8], p2: &[u8]) -> String {
 /// is reported as something new.
 pub fn idempotence_family(fp: &str) -> Option<&'static str> {
     if fp.starts_with("comment-text:blank-line") { return Some("comment-text:blank-line-inside-comment-changes"); }
-    if fp.starts_with("comment-text:continuation-lines-reindented") { return Some("comment-text:continuation-lines-of-a-comment-after-code-reindented").filter(|_| fp.contains(":after-code+")); }
+    if fp.starts_with("comment-text:continuation-lines-reindented") { return None; }
     let p: Vec<&str> = fp.split(':').collect();
     if p.len() < 4 || p[0] != "next-to-comment" { return None; }
     let (what, pos, other) = (p[1], p[2], p[3]);
@@ -632,8 +647,7 @@ pub fn idempotence_family(fp: &str) -> Option<&'static str> {
     let earlier = p.get(5) == Some(&"another-comment-earlier-on-the-line");
     match (change, side) {
         ("line-break-added", "after") if other == "other-side-END" => Some("next-to-comment:line-break-added-after-the-last-comment-of-the-file"),
-        ("line-break-added", "after") if block && (pos == "first-on-line+followed-by-code" || pos == "first-on-line+followed-by-comment") =>
-            Some("next-to-comment:line-break-added-after-a-block-comment-that-is-first-on-its-line-and-followed-on-it"),
+        ("line-break-added", "after") if block && (pos == "first-on-line+followed-by-code" || pos == "first-on-line+followed-by-comment") => None,
         ("line-break-added", "after") if !block && pos == "first-on-line+last-on-line" && other == "other-side-CODE" => Some("next-to-comment:empty-line-added-after-a-line-comment-on-its-own-line"),
         ("line-break-added", "before") if pos == "first-on-line+last-on-line" && other == "other-side-CODE" => Some("next-to-comment:empty-line-added-before-a-comment-on-its-own-line"),
         ("line-break-removed", "after") if pos == "after-code+last-on-line" => Some("next-to-comment:empty-line-removed-after-a-tail-comment"),
@@ -1189,8 +1203,30 @@ pub fn run(args: &[String]) -> i32 {
         let mut toks = match catch(AssertUnwindSafe(|| hook::tokens_of(src.as_bytes()))) { Ok(t) => t, Err(_) => continue };
         if toks.len() > 400 { toks.truncate(400); }
         let mut it = Interner::new();
-        let which = rng.below(5);
+        let which = rng.below(6);
         let tab = *rng.pick(&[4usize, 1, 2, 8, 0]);
+        if which == 5 {
+            // TokenStream::write_to: streams with typed (multi-line) comments after spaces, tabs, ASCII and non-ASCII text
+            let mut v = catch(AssertUnwindSafe(|| hook::run_stage(&hook::VStage::Comments { tab_size: 4 }, &toks))).unwrap_or_else(|_| toks.clone());
+            let mut out = vec![];
+            for t in v.drain(..) {
+                let multi = matches!(&t, VTok::BlockComment(l) | VTok::HeadComment(l) | VTok::TailComment(l) | VTok::InlineComment(l) if l.len() > 1);
+                if multi || rng.chance(1, 25) {
+                    match rng.below(4) { 0 => out.push(VTok::Literal("\"ñññ 日本\"".as_bytes().to_vec())), 1 => { out.push(VTok::Tab); out.push(VTok::Identifier(b"x".to_vec())); }
+                        2 => out.push(VTok::InlineComment(vec![b"/* c */".to_vec()])), _ => {} }
+                    if rng.chance(1, 2) { out.push(VTok::Whitespace); out.push(VTok::Whitespace); }
+                }
+                if rng.chance(1, 40) { out.push(VTok::TailComment(vec![b"// a".to_vec(), "// ñ b".as_bytes().to_vec(), b"// c".to_vec()])); }
+                out.push(t);
+            }
+            if out.len() > 300 { out.truncate(300); }
+            let res = catch(AssertUnwindSafe(|| hook::write_tokens(&out))).ok();
+            stats.inc("k_write_to");
+            let case = format!("CWrite {} {}", coq_toks(&out, &mut it), match &res { None => "None".to_string(), Some(r) => format!("(Some {})", coq_bytes(r)) });
+            shards.push(case, format!("{{\"kind\":\"write_to\",\"source\":{}}}", json_str(&src)));
+            n_s += 1;
+            continue;
+        }
         // streams for the later stages: comments typed and original spaces dropped by the real stages
         let prepared = |toks: &Vec<VTok>| -> Vec<VTok> {
             let c = catch(AssertUnwindSafe(|| hook::run_stage(&hook::VStage::Comments { tab_size: 4 }, toks))).unwrap_or_else(|_| toks.clone());
